@@ -23,6 +23,23 @@
            | W<i>                       las_i.write()
      -> one token per W: ok:x<file> | err:<E>      (- when there is none)
 
+   fsess <assoc> <vlrs> <format id> <record size> <op> <op> ...
+        round 6 (Model/WriterFault.v): a writer session with scale-aware chunks and faults
+        op = P<T|F>x<hex>                         write_points(plain records; T = the writer's point format)
+           | S<b0,..,b5>:x<raw>:x<re-expressed>   write_points(ScaleAwarePointRecord whose scales+offsets have these bit patterns)
+           | Q<T|F>x<hex> | Q<b0,..,b5>:x<raw>:x<re-expressed>    the same chunk, REFUSED by the destination with nothing stored
+           | E<vlrs> | X<k>:<vlrs> | C | Z        write_evlrs; write_evlrs failing once k bytes of the section are stored; close;
+                                                  close whose header rewrite the destination refuses
+     -> <outcomes> <file>      | open-err:<E>
+
+   vsess <record size> <x records> <op> <op> ...
+        round 6 (Model/RecView.v): one cloud obj0, then selections / edits / writes over the objects obj0, obj1, ...
+        op = V<i>:<k,k,..|->     obj_i[slice] (positions k of obj_i): a view, the next object
+           | K<i>:<k,k,..|->     obj_i[mask / index list]: a copy, the next object
+           | E<i>:<off>:x<values>:<width>    the field of <width> bytes at byte offset <off> of the k-th record of obj_i := k-th value
+           | W<i>                obj_i is written
+     -> <x bytes of every W, joined by ,|-> <x records presented by every object at the end, joined by ,>
+
    pair <gh> <hex edims|-> <others vlrs|-> <T|F> <gr> <rex edims|-> <record size> <x records>
         round 5 (Model/Pairing.v on Model/ExtraDims.v): a header of point format gh whose PointFormat carries the extra dimensions
         hex, built with the other VLRs `others` and the extra-bytes VLR after (T) or before (F) them, paired with a record of
@@ -207,6 +224,51 @@ let dispatch cmd a =
       | _ -> failwith ("bad op " ^ t) in
     let (_, outs) = List.fold_left step (w0, []) (Array.to_list (Array.sub a 5 (Array.length a - 5))) in
     if outs = [] then "-" else String.concat " " outs
+  | "fsess" ->
+    (match wopen (assoc_of_tok a.(0)) (vlrs_of_tok a.(1)) (zi 2) with
+     | Err e -> "open-err:" ^ err_name e
+     | Ok s0 ->
+       let ps = int_of_string a.(3) in
+       let scaled b =
+         (match String.split_on_char ':' b with
+          | [cs; raw; resc] -> { sa_scaling = zlist_of_tok cs; sa_raw = recs_of_tok ps raw; sa_resc = recs_of_tok ps resc }
+          | _ -> failwith ("bad scaled chunk " ^ b)) in
+       let parse t =
+         let b = rest t in
+         match t.[0] with
+         | 'P' -> FOp (WPoints (recs_of_tok ps (rest b), b.[0] = 'T'))
+         | 'S' -> FScaled (scaled b, true)
+         | 'Q' -> if b.[0] = 'T' || b.[0] = 'F' then FPointsFault (recs_of_tok ps (rest b), b.[0] = 'T')
+                  else (let c = scaled b in
+                        (* what the destination is offered is what write_points would store: decided against the header at open *)
+                        FPointsFault (express s0.w_h c, true))
+         | 'E' -> FOp (WEvlrs (vlrs_of_tok b))
+         | 'X' -> (match String.index_opt b ':' with
+                   | Some i -> FEvlrsFault (vlrs_of_tok (String.sub b (i + 1) (String.length b - i - 1)), z_of_string (String.sub b 0 i))
+                   | None -> failwith ("bad X " ^ t))
+         | 'C' -> FOp WClose
+         | 'Z' -> FCloseFault
+         | _ -> failwith ("bad op " ^ t) in
+       let ops = List.map parse (Array.to_list (Array.sub a 4 (Array.length a - 4))) in
+       let (s, outs) = frun ap s0 ops in
+       String.concat "," (List.map unit_res outs) ^ " " ^ tok_of_bytes s.w_file)
+  | "vsess" ->
+    let ps = max 1 (int_of_string a.(0)) in
+    let w0 = vworld_of (recs_of_tok ps a.(1)) in
+    let idx s = nat_of_int (int_of_string s) in
+    let sel t = if t = "-" then [] else List.map idx (String.split_on_char ',' t) in
+    let parse t =
+      let b = rest t in
+      match t.[0], String.split_on_char ':' b with
+      | 'V', [i; l] -> VView (idx i, sel l)
+      | 'K', [i; l] -> VCopy (idx i, sel l)
+      | 'E', [i; off; vals; width] -> VEdit (idx i, idx off, chunk (max 1 (int_of_string width)) (bytes_of_tok vals))
+      | 'W', [i] -> VWrite (idx i)
+      | _ -> failwith ("bad op " ^ t) in
+    let ops = List.map parse (Array.to_list (Array.sub a 2 (Array.length a - 2))) in
+    let (w, outs) = vrun w0 ops in
+    let finals = List.mapi (fun j _ -> tok_of_recs (records_at w (nat_of_int j))) w.vw_objs in
+    (if outs = [] then "-" else String.concat "," (List.map tok_of_bytes outs)) ^ " " ^ String.concat "," finals
   | "pair" ->
     let gh = zi 0 and hex = edims_of_tok a.(1) and others = vlrs_of_tok a.(2) and eb_last = bool_of_tok a.(3) in
     let gr = zi 4 and rex = edims_of_tok a.(5) in
